@@ -147,6 +147,9 @@ func goName(gt reflect.Type) string {
 			parts := make([]string, gt.NumField())
 			for i := range parts {
 				parts[i] = goName(gt.Field(i).Type)
+				if tag := gt.Field(i).Tag.Get("cql"); tag != "" {
+					parts[i] = tag + ":" + parts[i] // shows which UDT fields a struct has (and which it omits)
+				}
 			}
 			return "struct{" + strings.Join(parts, ";") + "}"
 		}
